@@ -25,6 +25,8 @@ def classify(v):
     prog, dims, what = v.get("prog", ""), v.get("dims", ""), v.get("what", "")
     if v["violation"] == "aliasing":
         return "aliasing:" + prog
+    if prog == "ₑ₁₀" and dims == "type":
+        return "exp10-byte-powi"
     if prog == "ⁿ" and dims == "type":
         return "pow-byte-exponent-powi"
     if "⌞" in prog and "own" in dims:
@@ -177,5 +179,5 @@ def run(r):
     r.coverage["distinct_nontrivial"] = len(set(tuple(s["op"] for s in h["steps"]) for h in hists if any(not b for s in h["steps"] for b in s["u"])))
     r.coverage["rule"] = ("tie: histories of 12-40 operations over up to 7 live handles (windows up to 14 elements, all 18 operation kinds, fresh element values so that "
                           "stale data is recognisable) plus 12 directed histories; non-trivial = a history in which at some step a buffer is shared (is_unique false). "
-                          "search: every catalogue entry (monadic and dyadic primitives and modifier applications) on fixed and random numeric arguments, each in all "
+                          "search: every catalogue entry (monadic and dyadic primitives and modifier applications, incl. the pervasive maths forms whose byte and float kernels differ) on fixed and random numeric arguments and on boundary values of both storage types (bytes 0 1 127 128 254 255 with repeats; floats also +-0, huge, subnormal, just outside the byte range; lists, matrices and a rank-3 array), each in all "
                           "{byte,float} x {marks kept, cleared, recomputed} x {fresh, shared clone, slice of a shared larger buffer, slice of a larger buffer that is otherwise dead} variants")
